@@ -4,7 +4,7 @@ import chan_common as cc
 def run(tier, seed):
     return cc.run_check("C01", tier, seed,
         mc_cfgs=(["ChanMC_c01q.cfg"], ["ChanMC_c01.cfg", "ChanMC_c01t.cfg"]),
-        profiles=[("nodisc", 2, 120), ("default", 2, 150), ("limits", 2, 80), ("async", 2, 60), ("default", 3, 40)],
-        thorough_profiles=[("nodisc", 2, 1500), ("default", 2, 2500), ("limits", 2, 1000), ("async", 2, 1000),
+        profiles=[("nodisc", 2, 100), ("default", 2, 150), ("limits", 2, 80), ("close", 2, 80), ("async", 2, 50), ("default", 3, 40)],
+        thorough_profiles=[("nodisc", 2, 1500), ("default", 2, 2500), ("limits", 2, 1000), ("close", 2, 1500), ("async", 2, 1000),
                            ("default", 3, 600), ("async", 3, 400)],
         assumptions=cc.COMMON_ASSUMPTIONS)
